@@ -1,4 +1,7 @@
 import LalModel.Proof.GroupRtmp
+import LalModel.Proof.GroupFlv
+import LalModel.Props.C08
+import LalModel.Props.C11
 /-
   C01 — Live relay delivers the publisher's messages intact to RTMP/FLV consumers.
   Property theorems only. `Group.run cfg evs` is the model of logic.Group on the event list `evs`
@@ -43,6 +46,95 @@ theorem rtmp_sub_contiguous (cfg : Cfg) (evs : List Ev) :
       refine ⟨a, s.D, hle, D_le s hI, ?_, ?_⟩
       · simp [hf']; exact hb
       · intro hm _ _; simp [St.D, hcfg, hm]
+
+/-- Every HTTP-FLV / WebSocket-FLV subscriber present in any reachable state has been written exactly:
+    the FLV header, its start-up prologue (cached metadata / sequence headers / GOPs as FLV tags) and the
+    tags of ONE CONTIGUOUS SLICE `pubLog[a..b)` of the publisher's non-empty messages, each unit being
+    one write (`wrap`: raw bytes, or one complete WebSocket binary frame — C11). Once the subscriber is
+    live (neither fresh nor waiting for a key frame) the slice reaches the end of the log: nothing
+    trails, nothing is skipped, nothing is duplicated. -/
+theorem flv_sub_contiguous (cfg : Cfg) (evs : List Ev) :
+    let s := run cfg evs
+    ∀ x ∈ s.flvSubs, ∃ a b, a ≤ b ∧ b ≤ s.pubLog.length ∧
+      s.bytes (fkind x) x.id = wrap x.ws Gen.flvHeader ++ (if x.fresh then [] else wrapAll x.ws x.pro) ++
+        tagsOf x.ws (Group.slice s.pubLog a b) ∧
+      (x.fresh = false → x.waitKey = false → b = s.pubLog.length) := by
+  intro s x hx
+  have hI := (frun_inv cfg evs).1
+  have ok := hI.subs x hx
+  simp only [List.not_mem_nil, if_false] at ok
+  by_cases hf : x.fresh = true
+  · refine ⟨0, 0, Nat.le_refl _, Nat.zero_le _, ?_, ?_⟩
+    · simp [hf, Group.slice, tagsOf, wrapAll]; exact (ok.fresh_ hf).1
+    · intro h; rw [hf] at h; cases h
+  · have hf' : x.fresh = false := by simpa using hf
+    cases hs : x.start with
+    | none =>
+      obtain ⟨hw, hb⟩ := ok.wait_ hf' hs
+      refine ⟨0, 0, Nat.le_refl _, Nat.zero_le _, ?_, ?_⟩
+      · simp [hf', Group.slice, tagsOf, wrapAll]; simpa [wrapAll] using hb
+      · intro _ h; rw [hw] at h; cases h
+    | some a =>
+      obtain ⟨hw, hle, hb⟩ := ok.live_ hf' a hs
+      refine ⟨a, s.pubLog.length, hle, Nat.le_refl _, ?_, fun _ _ => rfl⟩
+      simp [hf']; simpa [List.append_assoc] using hb
+
+/-- The publish log the two theorems above speak about IS the publisher's messages: exactly the
+    messages of the event list that arrive while a publisher is accepted and have a non-empty payload,
+    in order (`publishedOf` is defined on the event list alone, independently of the model). -/
+theorem pubLog_is_published (cfg : Cfg) (evs : List Ev) :
+    (run cfg evs).pubLog = (publishedOf evs).2 := by
+  have := run_published cfg evs
+  exact congrArg Prod.snd this
+
+/-- the message an RTMP consumer must decode for a published message: default chunk-stream id by type,
+    message stream id 1, same type, same millisecond timestamp, same payload except for the leading
+    @setDataFrame string of metadata -/
+def asChunkMsg (m : InMsg) : Chunk.Msg :=
+  { hdr := defaultHeader m.typ m.ts (withoutSdf m.typ m.payload).length, payload := withoutSdf m.typ m.payload }
+
+/-- what lal can be handed by a publisher and forwards: audio / video / metadata, payload non-empty
+    after the @setDataFrame rule, RTMP message-length and timestamp ranges -/
+def LiveWF (m : InMsg) : Prop :=
+  (m.typ = 8 ∨ m.typ = 9 ∨ m.typ = 18) ∧ withoutSdf m.typ m.payload ≠ [] ∧
+  (withoutSdf m.typ m.payload).length < 16777216 ∧ m.ts < 4294967296
+
+/-- Composition with C08: the live part of an RTMP subscriber's byte stream is decoded by the RTMP
+    specification reader (chunk size = lal's `LocalChunkSize`) into exactly the published messages —
+    same order, byte-identical payloads, identical timestamps. -/
+theorem live_part_decodes_rtmp (l : List InMsg) (h : ∀ m ∈ l, LiveWF m) :
+    ChunkSpec.read Gen.localChunkSize (bytesOf l) = some (l.map fun m => ChunkEnc.toSpec (asChunkMsg m)) := by
+  have hwf : ∀ x ∈ l.map asChunkMsg, Props.C08.MsgWF x := by
+    intro x hx
+    obtain ⟨m, hm, rfl⟩ := List.mem_map.mp hx
+    obtain ⟨ht, hne, hlen, hts⟩ := h m hm
+    refine ⟨⟨rfl, hlen, hts, ?_, ?_, ?_, ?_, ?_⟩, hne⟩
+    all_goals (simp only [asChunkMsg, defaultHeader]; rcases ht with h | h | h <;> simp [h])
+  have := Props.C08.enc_dec_spec Gen.localChunkSize (by decide) (l.map asChunkMsg) hwf
+  simp only [List.flatMap_map, List.map_map] at this
+  have e : bytesOf l = l.flatMap (fun m => Props.C08.enc Gen.localChunkSize (asChunkMsg m)) := by
+    simp only [bytesOf, List.flatMap, Props.C08.enc, asChunkMsg]
+    rfl
+  rw [e]; exact this
+
+/-- Composition with C11: the tags of the live part of an HTTP-FLV subscriber's stream are read by the
+    FLV specification reader as exactly the published messages. -/
+theorem live_part_decodes_flv (l : List InMsg) (h : ∀ m ∈ l, LiveWF m) :
+    FlvSpec.readTags (tagsOf false l).length (tagsOf false l) =
+      some (l.map fun m => { typ := b8 m.typ, ts := m.ts, payload := withoutSdf m.typ m.payload }) := by
+  have hwf : ∀ x ∈ l.map (fun m => (b8 m.typ, m.ts, withoutSdf m.typ m.payload)),
+      x.1.toNat < 32 ∧ x.2.2.length < 16777216 ∧ x.2.1 < 4294967296 := by
+    intro x hx
+    obtain ⟨m, hm, rfl⟩ := List.mem_map.mp hx
+    obtain ⟨ht, _, hlen, hts⟩ := h m hm
+    refine ⟨?_, hlen, hts⟩
+    rcases ht with h | h | h <;> simp [h, b8]
+  have := FlvSpec.readTags_append _ hwf _ (Nat.le_refl _)
+  have e : tagsOf false l = (l.map (fun m => (b8 m.typ, m.ts, withoutSdf m.typ m.payload))).flatMap
+      (fun x => Flv.packTag x.1 x.2.1 x.2.2) := by
+    simp [tagsOf, wrapAll, wrap, Ws.subWrite, tagWithoutSdf, List.flatMap, List.map_map, Function.comp_def]
+  rw [e]
+  simpa [List.map_map, Function.comp_def] using this
 
 /-- zero-length messages are not forwarded (and change nothing) -/
 theorem zero_len_dropped (s : St) (typ ts : Nat) : broadcast s { typ := typ, ts := ts, payload := [] } = s := by
